@@ -43,3 +43,18 @@ theorem C02_zero_zero_entry_is_the_padding_marker : isPadding (decEntries 5 (enc
   zero_zero_entry_rejected_as_found 
 
 end CD
+
+namespace CD
+
+/-- `BigBedRead::autosql`: the bytes from `autoSqlOffset` up to the first NUL -/
+def readCStr (l : List Nat) (off : Nat) : List Nat := (l.drop off).takeWhile (· ≠ 0)
+
+/-- A NUL-free autoSql text written NUL-terminated at its offset is returned verbatim, whatever surrounds it
+    (the writer refuses a text containing NUL with InvalidInput, so every stored text is NUL-free). -/
+theorem C02_autosql_stored_verbatim (pre text tail : List Nat) (h : ∀ b ∈ text, b ≠ 0) :
+    readCStr (pre ++ (text ++ 0 :: tail)) pre.length = text := by
+  unfold readCStr
+  rw [List.drop_left]
+  exact takeWhile_nul text tail h
+
+end CD
